@@ -81,17 +81,17 @@ def gen_structured(ck: Check):
     if quick:
         pairs = rng.sample(pairs, 900)
     for i, j in pairs:
-        for mid in (G.TEXTS if not quick else [rng.choice(G.TEXTS)]):
+        for mid in (rng.sample(G.TEXTS, 3) if not quick else [rng.choice(G.TEXTS)]):
             a = G.fix_markup(G.inst(rng, G.SHAPES[i]))
             b = G.fix_markup(G.inst(rng, G.SHAPES[j]))
             yield "len2", ([(rng.choice(G.TEXTS), a), (mid, b)], rng.choice(G.TEXTS))
     # (3) longer templates and markup-like text fragments, at random
-    for _ in range(700 if quick else 12000):
+    for _ in range(700 if quick else 8000):
         n = rng.randrange(3, 6)
         texts = G.TEXTS + (G.TEXTS_MARKUPLIKE if rng.random() < 0.5 else [])
         segs = [(rng.choice(texts), G.rand_markup(rng)) for _ in range(n)]
         yield "len3-5", (segs, rng.choice(texts))
-    for _ in range(500 if quick else 5000):
+    for _ in range(500 if quick else 3000):
         n = rng.randrange(0, 3)
         segs = [(rng.choice(G.TEXTS_MARKUPLIKE), G.rand_markup(rng)) for _ in range(n)]
         yield "markuplike", (segs, rng.choice(G.TEXTS_MARKUPLIKE + G.TEXTS))
@@ -103,7 +103,7 @@ ALPHA = list("{%}-# \n\ta_'") + ["{{", "}}", "{%", "%}", "{#", "#}", "{%-", "-%}
 
 def gen_random(ck: Check):
     rng = ck.rng
-    for _ in range(1500 if ck.quick else 20000):
+    for _ in range(1500 if ck.quick else 12000):
         n = rng.randrange(0, 28)
         yield "".join(rng.choice(WORDS) if rng.random() < 0.25 else rng.choice(ALPHA) for _ in range(n))
 
@@ -114,7 +114,7 @@ def run(ck: Check) -> None:
         "inline comment), default delimiters, template_comments=True. Exhaustive: one markup of every kind with every "
         "combination of its 2 or 4 whitespace-control markers between every pair of texts from "
         + repr(G.TEXTS) + "; two markups: every pair of kinds x markers (thorough; 900 sampled pairs in quick) with the text "
-        "between them over the same set; plus random templates of 3-5 markups, texts with markup-like fragments "
+        "between them drawn from the same set (3 per pair); plus random templates of 3-5 markups, texts with markup-like fragments "
         + repr(G.TEXTS_MARKUPLIKE) + ", and random sources over an alphabet rich in delimiters, hyphens, newlines and the "
         "words raw/endraw/comment/endcomment/doc/enddoc. Observed: list(env.tokenizer()(src)) (kind, value, start) and the "
         "rendered text or error class, sync and async. Non-trivial = the source contains at least one markup match."
